@@ -88,6 +88,16 @@ Definition key_of_q (q : qkey) : key :=
   | QTs s n => KTs s n
   end.
 
+(* a request key denoting a document key *)
+Definition qkey_of_key (k : key) : qkey :=
+  match k with
+  | KStr s => QStr s
+  | KInt z => if (0 <=? z)%Z then QU (Z.to_N z) else QS z
+  | KF32 b => QF32 b
+  | KF64 b => QF64 b
+  | KTs s n => QTs s n
+  end.
+
 (* first member stored under a key equal to q *)
 Fixpoint lookup (q : key) (kvs : list (mpv * mpv)) : option mpv :=
   match kvs with
@@ -148,6 +158,8 @@ Section Typed.
     end.
 
   (* ---------- programs ---------- *)
+  Inductive serr := SE (e : err) | SERange.   (* SERange: "No more items to load" *)
+
   (* what a program does with an object scope / an array scope *)
   Inductive req :=
   | RGet (q : qkey) (t : target)          (* load the field q into a target of kind t *)
@@ -155,6 +167,7 @@ Section Typed.
   | RArr (q : qkey) (body : areqs)        (* open the field q as an array, run body, leave it *)
   | RBin (q : qkey) (n : nat)             (* open the field q as a byte array, load n bytes, leave it *)
   | RVisit                                (* enumerate the keys *)
+  | REach (acts : vacts)                  (* enumerate the keys; while the i-th key is current, do the i-th action with it *)
   with reqs := RNil | RCons (r : req) (l : reqs)
   with areq :=
   | AGet (t : target)                     (* load the next element *)
@@ -162,7 +175,18 @@ Section Typed.
   | AArr (body : areqs)
   | ABin (n : nat)
   | AEnd                                  (* ask whether all elements were loaded *)
-  with areqs := ANil | ACons (a : areq) (l : areqs).
+  with areqs := ANil | ACons (a : areq) (l : areqs)
+  (* what a VisitKeys callback does with the key it is handed (SerializeMapImpl: convert the key, then load
+     the value under that very key): nothing, throw, or one keyed load *)
+  with vact :=
+  | VSkip
+  | VThrow (e : serr)
+  | VGet (t : target)
+  | VObj (body : reqs)
+  | VArr (body : areqs)
+  | VBin (n : nat)
+  | VBinArr (n : nat) (body : areqs)      (* byte-container target: binary scope and n bytes; if it is declined, the array scope *)
+  with vacts := VANil | VACons (a : vact) (l : vacts).   (* actions beyond the list: VSkip *)
 
   (* what the program observes *)
   Inductive tok :=
@@ -173,8 +197,6 @@ Section Typed.
   | KByte (b : N)
   | KKeys (ks : list key)
   | KIsEnd (b : bool).
-
-  Inductive serr := SE (e : err) | SERange.   (* SERange: "No more items to load" *)
 
   (* observations, the error that ended the program if any, and "no array / byte-array child was
      left with elements unread" (the hypothesis of the _outside theorems, finding F14) *)
@@ -232,6 +254,7 @@ Section Typed.
       end
     | RVisit =>
       ([KKeys (flat_map (fun kv => match keyden (fst kv) with Some k => [k] | None => [] end) kvs)], None, true)
+    | REach acts => spec_vacts o kvs kvs acts
     end
   with spec_reqs (o : opts) (kvs : list (mpv * mpv)) (l : reqs) {struct l} : spec_res :=
     match l with
@@ -280,6 +303,65 @@ Section Typed.
         match spec_areqs o vs1 l' with ((t2, e2, c2), vs2) => ((t1 ++ t2, e2, c1 && c2), vs2) end
       | failed => failed
       end
+    end
+  (* the action of a callback, with the key q it was handed: the keyed request of the same kind *)
+  with spec_vact (o : opts) (kvs : list (mpv * mpv)) (q : qkey) (a : vact) {struct a} : spec_res :=
+    match a with
+    | VSkip => ([], None, true)
+    | VThrow e => ([], Some e, true)
+    | VGet t =>
+      match lookup (key_of_q q) kvs with
+      | None => ([KFalse], None, true)
+      | Some v => of_tres (typed_spec o t v)
+      end
+    | VObj body =>
+      match lookup (key_of_q q) kvs with
+      | None => ([KNone], None, true)
+      | Some (MMap kvs') => child (spec_reqs o kvs' body) true
+      | Some v => not_container o v
+      end
+    | VArr body =>
+      match lookup (key_of_q q) kvs with
+      | None => ([KNone], None, true)
+      | Some (MArr vs) =>
+        match spec_areqs o vs body with (r', lft) => child r' (match lft with [] => true | _ => false end) end
+      | Some v => not_container o v
+      end
+    | VBin n =>
+      match lookup (key_of_q q) kvs with
+      | Some (MBin bs) => bytes_child bs n
+      | _ => ([KNone], None, true)
+      end
+    | VBinArr n body =>
+      match lookup (key_of_q q) kvs with
+      | Some (MBin bs) => bytes_child bs n
+      | found =>
+        match (match found with
+               | None => ([KNone], None, true)
+               | Some (MArr vs) =>
+                 match spec_areqs o vs body with (r', lft) => child r' (match lft with [] => true | _ => false end) end
+               | Some v => not_container o v
+               end) with
+        | (t2, e2, c2) => (KNone :: t2, e2, c2)
+        end
+      end
+    end
+  (* the keys in document order (ms = the members not yet visited), the i-th action for the i-th key *)
+  with spec_vacts (o : opts) (kvs ms : list (mpv * mpv)) (acts : vacts) {struct acts} : spec_res :=
+    match acts with
+    | VANil => ([], None, true)
+    | VACons a acts' =>
+      match ms with
+      | [] => ([], None, true)
+      | (k, _) :: ms' =>
+        match (match keyden k with
+               | Some kk => spec_vact o kvs (qkey_of_key kk) a
+               | None => ([], Some (SE EParse), true)          (* "Unsupported key type" *)
+               end) with
+        | (t1, None, c1) => match spec_vacts o kvs ms' acts' with (t2, e2, c2) => (t1 ++ t2, e2, c1 && c2) end
+        | failed => failed
+        end
+      end
     end.
 End Typed.
 
@@ -291,6 +373,15 @@ Fixpoint keys_distinct (ks : list key) : bool :=
   | k :: t => forallb (fun k' => negb (key_eq k k')) t && keys_distinct t
   end.
 
+(* every key equals itself: no NaN float / double key, at any depth *)
+Fixpoint keys_refl (v : mpv) : bool :=
+  match v with
+  | MArr l => forallb keys_refl l
+  | MMap kvs => forallb (fun kv => match kv with (k, x) =>
+                   match keyden k with Some kk => key_eq kk kk | None => true end && keys_refl x end) kvs
+  | _ => true
+  end.
+
 Fixpoint doc_ok (v : mpv) : bool :=
   match v with
   | MArr l => forallb doc_ok l
@@ -300,3 +391,22 @@ Fixpoint doc_ok (v : mpv) : bool :=
     && forallb (fun kv => doc_ok (snd kv)) kvs
   | _ => true
   end.
+
+(* programs that never load from inside a VisitKeys callback *)
+Fixpoint each_free_req (r : req) : bool :=
+  match r with
+  | RObj _ body => each_free_reqs body
+  | RArr _ body => each_free_areqs body
+  | REach _ => false
+  | _ => true
+  end
+with each_free_reqs (l : reqs) : bool :=
+  match l with RNil => true | RCons r l' => each_free_req r && each_free_reqs l' end
+with each_free_areq (a : areq) : bool :=
+  match a with
+  | AObj body => each_free_reqs body
+  | AArr body => each_free_areqs body
+  | _ => true
+  end
+with each_free_areqs (l : areqs) : bool :=
+  match l with ANil => true | ACons a l' => each_free_areq a && each_free_areqs l' end.
